@@ -232,7 +232,7 @@ theorem frame_step (T : Tables) (w : World) (op : Op) (r : Ref) (hr : r < w.heap
         split
         · split
           · have : r' ≠ r := fun e => hnot (e ▸ root_reach hroot (self_mem_reachAcc _ _))
-            simp only [alloc_heap]
+            simp only [enumHeap]
             rw [getElem?_set_ne' this]
             exact List.getElem?_append_left hr
           · rfl
@@ -480,5 +480,217 @@ theorem describe_instantiate (T : Tables) (w : World) (n c : Name) (cfg : List (
       ((instantiate T w n c cfg).accessiblesOf (.inst n)) = _
   rw [hacc]
   exact h1
+
+
+/-! ### the two mutations keep the invariants -/
+
+/-- an operation that writes only inside its target instance (and may give it new objects) keeps the invariants -/
+theorem preserve_of_target_write (w w' : World) (i : Name)
+    (hroots : ∀ o, w'.roots o = w.roots o) (hlen : w.heap.length ≤ w'.heap.length)
+    (hframe : ∀ x, x < w.heap.length → x ∉ reach w (.inst i) → w'.heap[x]? = w.heap[x]?)
+    (hb : Bounded w) (hs : Separated w)
+    (hnew : ∀ r ∈ reach w' (.inst i), r ∈ reach w (.inst i) ∨ (w.heap.length ≤ r ∧ r < w'.heap.length)) :
+    Bounded w' ∧ Separated w' := by
+  have hsame : ∀ o, o ≠ Owner.inst i → reach w' o = reach w o := fun o ho =>
+    reach_congr (hroots o) (fun r hr => hframe r (root_lt hb hr)
+      (fun hc => hs i o ho r hc (root_reach hr (self_mem_reachAcc _ _))))
+  constructor
+  · intro o r hr
+    by_cases ho : o = .inst i
+    · subst ho
+      rcases hnew r hr with h | h
+      · exact Nat.lt_of_lt_of_le (hb _ r h) hlen
+      · exact h.2
+    · rw [hsame o ho] at hr
+      exact Nat.lt_of_lt_of_le (hb o r hr) hlen
+  · intro j o hoj r hr
+    by_cases hj : Owner.inst j = .inst i
+    · have hji : j = i := by cases hj; rfl
+      subst hji
+      rw [hsame o hoj]
+      rcases hnew r hr with h | h
+      · exact hs j o hoj r h
+      · exact fun hro => absurd (hb o r hro) (Nat.not_lt.2 h.1)
+    · rw [hsame _ hj] at hr
+      by_cases ho : o = .inst i
+      · subst ho
+        intro hro
+        rcases hnew r hro with h | h
+        · exact hs j (.inst i) hoj r hr h
+        · exact absurd (hb _ r hr) (Nat.not_lt.2 h.1)
+      · rw [hsame o ho]
+        exact hs j o hoj r hr
+
+theorem accAt_lt {h : Heap} {r : Ref} {a : AccH} (ha : h.accAt r = some a) : r < h.length := by
+  unfold Heap.accAt at ha
+  cases hr : h[r]? with
+  | none => simp [hr] at ha
+  | some o => exact (List.getElem?_eq_some_iff.1 hr).1
+
+theorem dtAt_lt {h : Heap} {r : Ref} {t : DTree} (ha : h.dtAt r = some t) : r < h.length := by
+  unfold Heap.dtAt at ha
+  cases hr : h[r]? with
+  | none => simp [hr] at ha
+  | some o => exact (List.getElem?_eq_some_iff.1 hr).1
+
+theorem accAt_set_self {h : Heap} {r : Ref} (hr : r < h.length) (a : AccH) :
+    Heap.accAt (h.set r (.acc a)) r = some a := by
+  unfold Heap.accAt; simp [hr]
+
+theorem accAt_set_dt {h : Heap} {rd : Ref} {t : DTree} (hd : h.dtAt rd = some t) (t' : DTree) (x : Ref) :
+    Heap.accAt (h.set rd (.dt t')) x = h.accAt x := by
+  by_cases hx : rd = x
+  · subst hx
+    have hlt := dtAt_lt hd
+    have h1 : (h.set rd (Obj.dt t'))[rd]? = some (Obj.dt t') := by simp [hlt]
+    unfold Heap.dtAt at hd
+    unfold Heap.accAt
+    rw [h1]
+    cases hr : h[rd]? with
+    | none => simp [hr] at hd
+    | some o => cases o with
+      | acc a => simp [hr] at hd
+      | dt t0 => rfl
+  · exact accAt_congr (getElem?_set_ne' hx)
+
+theorem records_mutation (T : Tables) (w : World) (op : Op) (hop : (∃ i p k v, op = .setprop i p k v) ∨ ∃ i p m, op = .addEnum i p m) :
+    (step T w op).classes = w.classes ∧ (step T w op).insts = w.insts := by
+  rcases hop with ⟨i, p, k, v, rfl⟩ | ⟨i, p, m, rfl⟩
+  · simp only [step, setprop]
+    repeat' split
+    all_goals exact ⟨rfl, rfl⟩
+  · simp only [step, addEnum]
+    repeat' split
+    all_goals exact ⟨rfl, rfl⟩
+
+theorem roots_of_records {w w' : World} (hc : w'.classes = w.classes) (hi : w'.insts = w.insts) (o : Owner) :
+    w'.roots o = w.roots o := by
+  cases o <;> simp only [World.roots, World.findClass, World.findInst, hc, hi]
+
+theorem mem_reach_inst {w : World} {i par : Name} {r : Ref} (h : aget? (w.accessiblesOf (.inst i)) par = some r) :
+    r ∈ w.roots (.inst i) := accessible_mem_roots (aget?_mem h)
+
+/-- what is reachable from `x` after the cell `r` was overwritten by an accessible with the given fields -/
+theorem reachAcc_after_set {h h' : Heap} {r : Ref} {a' : AccH} (hr' : h'.accAt r = some a')
+    (hother : ∀ x, x ≠ r → h'.accAt x = h.accAt x) (x : Ref) :
+    reachAcc h' x = if x = r then r :: (a'.dtype.toList ++ a'.ownDt.toList ++ a'.mergedDt.toList) else reachAcc h x := by
+  by_cases hx : x = r
+  · subst hx; simp only [if_true]; unfold reachAcc; rw [hr']
+  · simp only [hx, if_false]; unfold reachAcc; rw [hother x hx]
+
+theorem preserve_setprop (T : Tables) (w : World) (i p k : Name) (v : PVal) (hb : Bounded w) (hs : Separated w) :
+    Bounded (setprop T w i p k v) ∧ Separated (setprop T w i p k v) := by
+  have hrec := records_mutation T w (.setprop i p k v) (Or.inl ⟨i, p, k, v, rfl⟩)
+  have hframe := fun x hx hn => frame_step T w (.setprop i p k v) x hx hn
+  simp only [step] at hrec hframe
+  apply preserve_of_target_write w _ i (roots_of_records hrec.1 hrec.2) ?_ hframe hb hs
+  · -- what the instance reaches afterwards
+    intro x hx
+    left
+    unfold reach at hx ⊢
+    rw [roots_of_records hrec.1 hrec.2] at hx
+    obtain ⟨root, hroot, hxr⟩ := List.mem_flatMap.1 hx
+    revert hx hxr
+    unfold setprop
+    split
+    · rename_i r' hacc
+      have hr'root := mem_reach_inst hacc
+      split
+      · rename_i a ha
+        have hlt := accAt_lt ha
+        split
+        · intro _ hxr
+          simp only at hxr
+          rw [reachAcc_after_set (accAt_set_self hlt _) (fun y hy => accAt_congr (getElem?_set_ne' (Ne.symm hy))) root] at hxr
+          split at hxr
+          · rename_i hroot'
+            refine List.mem_flatMap.2 ⟨r', hr'root, ?_⟩
+            unfold reachAcc; rw [ha]; exact hxr
+          · exact List.mem_flatMap.2 ⟨root, hroot, hxr⟩
+        · split
+          · rename_i rd hd
+            split
+            · rename_i t ht
+              intro _ hxr
+              simp only at hxr
+              unfold reachAcc at hxr
+              rw [accAt_set_dt ht] at hxr
+              exact List.mem_flatMap.2 ⟨root, hroot, hxr⟩
+            · intro _ hxr; exact List.mem_flatMap.2 ⟨root, hroot, hxr⟩
+          · intro _ hxr; exact List.mem_flatMap.2 ⟨root, hroot, hxr⟩
+      · intro _ hxr; exact List.mem_flatMap.2 ⟨root, hroot, hxr⟩
+    · intro _ hxr; exact List.mem_flatMap.2 ⟨root, hroot, hxr⟩
+  · -- the heap does not shrink
+    unfold setprop
+    repeat' split
+    all_goals simp
+
+
+theorem accAt_append_dt (h : Heap) (t : DTree) (y : Ref) : Heap.accAt (h ++ [Obj.dt t]) y = h.accAt y := by
+  unfold Heap.accAt
+  by_cases hy : y < h.length
+  · rw [List.getElem?_append_left hy]
+  · have hge : h.length ≤ y := Nat.le_of_not_lt hy
+    have h2 : h[y]? = none := List.getElem?_eq_none hge
+    rw [h2]
+    by_cases hy2 : y = h.length
+    · subst hy2; simp
+    · have hlen : (h ++ [Obj.dt t]).length ≤ y := by
+        rw [List.length_append, List.length_singleton]
+        exact Nat.succ_le_of_lt (Nat.lt_of_le_of_ne hge (fun e => hy2 e.symm))
+      have : (h ++ [Obj.dt t])[y]? = none := List.getElem?_eq_none hlen
+      rw [this]
+
+theorem preserve_addEnum (T : Tables) (w : World) (i p m : Name) (hb : Bounded w) (hs : Separated w) :
+    Bounded (addEnum w i p m) ∧ Separated (addEnum w i p m) := by
+  have hrec := records_mutation T w (.addEnum i p m) (Or.inr ⟨i, p, m, rfl⟩)
+  have hframe := fun x hx hn => frame_step T w (.addEnum i p m) x hx hn
+  simp only [step] at hrec hframe
+  apply preserve_of_target_write w _ i (roots_of_records hrec.1 hrec.2) ?_ hframe hb hs
+  · intro x hx
+    unfold reach at hx ⊢
+    rw [roots_of_records hrec.1 hrec.2] at hx
+    obtain ⟨root, hroot, hxr⟩ := List.mem_flatMap.1 hx
+    revert hx hxr
+    unfold addEnum
+    split
+    · rename_i r' hacc
+      have hr'root := mem_reach_inst hacc
+      split
+      · rename_i a ha
+        have hlt := accAt_lt ha
+        split
+        · rename_i rd hd
+          split
+          · rename_i t ht
+            intro _ hxr
+            simp only [enumHeap] at hxr ⊢
+            have hlt1 : r' < (w.heap ++ [Obj.dt (.node "enum" [] [] (t.members ++ [(m, nextEnum t.members)]))]).length :=
+              Nat.lt_of_lt_of_le hlt (by simp)
+            rw [reachAcc_after_set (h := w.heap) (accAt_set_self hlt1 _)
+              (fun y hy => by rw [accAt_congr (getElem?_set_ne' (Ne.symm hy)), accAt_append_dt]) root] at hxr
+            split at hxr
+            · simp only [Option.toList, List.mem_cons, List.mem_append, List.not_mem_nil, or_false] at hxr
+              rcases hxr with rfl | (rfl | hx2) | hx2
+              · exact Or.inl (List.mem_flatMap.2 ⟨x, hr'root, self_mem_reachAcc _ _⟩)
+              · right; simp
+              · left
+                refine List.mem_flatMap.2 ⟨r', hr'root, ?_⟩
+                unfold reachAcc; rw [ha]
+                simp only [List.mem_cons, List.mem_append]
+                exact Or.inr (Or.inl (Or.inr hx2))
+              · left
+                refine List.mem_flatMap.2 ⟨r', hr'root, ?_⟩
+                unfold reachAcc; rw [ha]
+                simp only [List.mem_cons, List.mem_append]
+                exact Or.inr (Or.inr hx2)
+            · exact Or.inl (List.mem_flatMap.2 ⟨root, hroot, hxr⟩)
+          · intro _ hxr; exact Or.inl (List.mem_flatMap.2 ⟨root, hroot, hxr⟩)
+        · intro _ hxr; exact Or.inl (List.mem_flatMap.2 ⟨root, hroot, hxr⟩)
+      · intro _ hxr; exact Or.inl (List.mem_flatMap.2 ⟨root, hroot, hxr⟩)
+    · intro _ hxr; exact Or.inl (List.mem_flatMap.2 ⟨root, hroot, hxr⟩)
+  · unfold addEnum
+    repeat' split
+    all_goals simp [enumHeap]
 
 end Frappy.Klass
